@@ -692,4 +692,32 @@ Section GasSpec.
     intros Hg Hlt. destruct (exec E f i s) as [[o| |] s'] eqn:Hx; [|exact I|exact I].
     eapply gas_spec_underfunded; [eapply gas_spec_exec; eassumption|assumption].
   Qed.
+
+  (* readable corollaries *)
+  Theorem system_functions_return_nothing i s o s' :
+    (forall fz wp, f_freeze_wipe E fz wp i s = (Ok o, s') -> all_consumed o)
+    /\ (forall p, f_pause E p i s = (Ok o, s') -> all_consumed o)
+    /\ (forall st, f_roles E st i s = (Ok o, s') -> all_consumed o)
+    /\ (f_create_role_transfer E i s = (Ok o, s') -> all_consumed o).
+  Proof.
+    split; [|split; [|split]]; intros.
+    - eapply gas_freeze_wipe; eassumption.
+    - eapply gas_pause; eassumption.
+    - eapply gas_roles; eassumption.
+    - eapply gas_create_role_transfer; eassumption.
+  Qed.
+  Theorem nft_transfer_destination_side i s o s' :
+    f_nft_transfer E i s = (Ok o, s') -> i_gas i < two64 -> beqb (i_caller i) (i_rcpt i) = false ->
+    o_gasRemaining o + sum_gasLimit o = i_gas i.
+  Proof.
+    intros H Hg Hc. apply gas_nft_transfer in H; [|assumption]. destruct H as [[_ H] _].
+    unfold charge_nft_transfer in H. rewrite Hc in H. lia.
+  Qed.
+  Theorem multi_transfer_destination_side i s o s' :
+    f_multi_transfer E i s = (Ok o, s') -> i_gas i < two64 -> beqb (i_caller i) (i_rcpt i) = false ->
+    o_gasRemaining o + sum_gasLimit o = i_gas i.
+  Proof.
+    intros H Hg Hc. apply gas_multi_transfer in H; [|assumption]. destruct H as [[_ H] _].
+    unfold charge_multi_transfer in H. rewrite Hc in H. lia.
+  Qed.
 End GasSpec.
